@@ -1,6 +1,6 @@
 """C12 - closing and reopening a project loses nothing it promised to keep.
 
-(a) Differential exploration: every history (depth<=d over 18 operations) is executed twice on
+(a) Differential exploration: every history (depth<=d over 20 operations) is executed twice on
 the real implementation - once straight through and once with close()+reopen inserted at one
 (thorough: one or two) of every possible position - and then driven through the same probes
 (undo everything, redo everything; selective undo of the oldest change).  The runs must agree
@@ -26,6 +26,8 @@ OPS = [
     ("CF", "", "n.py"), ("CD", "", "pkg"), ("MV", "m.py", "pkg/m.py"), ("MV", "d", "g"), ("MV", "c.py", "k.py"),
     ("RM", "d/x.py"), ("SET", [("W", "m.py", "v2"), ("CF", "", "n.py")]), ("W", "g/x.py", "X = 2\n"),
     ("undo",), ("redo",), ("analyze", "m.py"), ("W", "k.py", "a = 5\nb = 6\n"), ("undo_drop",),
+    # one path that is a file in one change and a folder in a later one
+    ("MV", "n.py", "n2.py"), ("CD", "", "n.py"),
 ]
 OPS_SMALL = [OPS[i] for i in (0, 2, 5, 6, 7, 8, 9, 12, 13, 15, 16)]
 
@@ -173,7 +175,7 @@ def keys(n, memo={}):
 class C12(Check):
     pid = "C12"
     level = "model_checking"
-    rule = ("(a) states are event histories: all sequences of 18 operations (content edits incl. CRLF/unicode/empty/no-final-newline, "
+    rule = ("(a) states are event histories: all sequences of 20 operations (content edits incl. CRLF/unicode/empty/no-final-newline, "
             "create file/folder, file and folder moves, removal, nested change set, undo, redo, module analysis) to depth d; each "
             "feasible sequence is replayed on the real implementation without and with close()+reopen inserted at every position "
             "(thorough: also every pair of positions), followed by two probes (undo-all/redo-all, selective undo/redo of the oldest "
